@@ -1630,6 +1630,8 @@ class Interp:
         return Const(self.decide('isinstance(%s, %s)' % (_prov(v), '|'.join(sorted(names)))))
 
     def p_callable(self, a, k, n):
+        if isinstance(a[0], ObjV) and isinstance(a[0].attrs.get('__callable__'), Const):
+            return Const(bool(a[0].attrs['__callable__'].v))
         return Const(isinstance(a[0], (FuncV, Prim, TypeV, PartialV)) or (isinstance(a[0], Sym) and a[0].typ == 'callable'))
 
     def p_enumerate(self, a, k, n):
@@ -1741,10 +1743,19 @@ class Interp:
 
     def p_getattr(self, a, k, n):
         if isinstance(a[1], Const):
+            if len(a) > 2:
+                try:
+                    return self.getattr(a[0], a[1].v, n)
+                except Raised as e:
+                    if e.what.startswith('AttributeError'):
+                        return a[2]
+                    raise
             return self.getattr(a[0], a[1].v, n)
         return Sym('getattr(%s,%s)' % (_prov(a[0]), _prov(a[1])))
 
     def p_hasattr(self, a, k, n):
+        if isinstance(a[0], ObjV) and isinstance(a[1], Const) and getattr(self, 'concrete_context', False):
+            return Const(a[1].v in a[0].attrs or (a[0].cls.module is not None and self.find_method(a[0].cls, a[1].v) is not None))
         return Const(self.decide('hasattr(%s,%s)' % (_prov(a[0]), _prov(a[1]))))
 
     def p_validate_doc(self, a, k, n):
